@@ -84,6 +84,8 @@ class Ctx:
   def __init__(self, script, hooks=None):
     self.script = {k: list(v) for k, v in script.items()}
     self.calls = []
+    self.events = []           # unified, ordered: ('body', name, att) ('body_end', name)
+                               # ('plug', op, cls, iid) ('tdiag', i) ('cb', i) ('diag', phase, i)
     self.plug_events = []      # ('new'|'fail'|'teardown', cls, iid)
     self.cur = {}              # phase name -> tokens of the running/last invocation
     self.att = {}
@@ -113,6 +115,7 @@ def make_body(ctx, node, is_td_hint=None):
     b, m, d = ctx.next_tokens(name)
     ctx.cur[name] = (b, m, d)
     ctx.att[name] = ctx.att.get(name, 0) + 1
+    ctx.events.append(('body', name, ctx.att[name]))
     ctx.calls.append(dict(n=name, b=b, m=m, d=list(d), seen=_seen(test.test_record),
                           att=ctx.att[name],
                           pl={k: getattr(v, 'iid', None) for k, v in plugs.items()},
@@ -159,6 +162,7 @@ def make_diag(ctx, phase_name, i):
   def run(phase_record):
     code = ctx.cur[phase_name][2][i]
     ctx.calls.append(dict(n='diag:%s:%d' % (phase_name, i), b=code))
+    ctx.events.append(('diag', phase_name, i))
     if code == '!':
       raise DiagError('diagnoser raises')
     if code == '0':
@@ -170,6 +174,7 @@ def make_diag(ctx, phase_name, i):
 def make_tdiag(ctx, i):
   def run(test_rec, store):
     b, _, _ = ctx.next_tokens('tdiag%d' % i)
+    ctx.events.append(('tdiag', i))
     ctx.calls.append(dict(n='tdiag', b=b, m='', d=[], seen=_seen(test_rec), att=i, pl={}, plcls={}))
     if b == '!':
       raise DiagError('test diagnoser raises')
@@ -187,11 +192,14 @@ def make_plug(ctx, cid, bad, tdmode):
     self.cid = cid
     if bad:
       ctx.plug_events.append(('fail', cid, self.iid))
+      ctx.events.append(('plug', 'fail', cid, self.iid))
       raise PlugCtorError('constructor of %s raises' % cid)
     ctx.plug_events.append(('new', cid, self.iid))
+    ctx.events.append(('plug', 'new', cid, self.iid))
 
   def tearDown(self):
     ctx.plug_events.append(('teardown', self.cid, self.iid, tdmode))
+    ctx.events.append(('plug', 'teardown', self.cid, self.iid))
     hook = ctx.hooks.get('plug_teardown')
     if hook:
       hook(ctx, self.cid)
@@ -367,7 +375,11 @@ def _run_program(prog, calls, hooks=None, timeout_s=None):
   ctx = Ctx(script_from_calls(calls), hooks)
   test, start = make_test(ctx, prog, timeout_s)
   out = []
-  test.add_output_callbacks(out.append)
+
+  def cb(rec):
+    ctx.events.append(('cb', len(out)))
+    out.append(rec)
+  test.add_output_callbacks(cb)
   crashed = []
   old_hook = threading.excepthook
 
@@ -390,6 +402,7 @@ def _run_program(prog, calls, hooks=None, timeout_s=None):
   obs['dcalls'] = [c for c in ctx.calls if c['n'].startswith('diag:')]
   obs['crashed'] = crashed
   obs['plug_events'] = ctx.plug_events
+  obs['events'] = ctx.events
   obs['ncb'] = len(out)
   obs['errors'] = ctx.errors
   return obs
